@@ -2,10 +2,10 @@
 import json
 import os
 
-from gen.progs import gen_builtin_program, gen_layout_program, gen_program, layout_search_programs
+from gen.progs import gen_builtin_program, gen_layout_program, gen_order_program, gen_program, layout_search_programs
 from gen.rng import Rng
 from lib.e2e import run_pipeline, same_behaviour
-from lib.vlib import Check, check_props, coq_eval, coq_result, vh
+from lib.vlib import WORK, Check, build_harness, check_props, coq_eval, coq_result, vh
 
 PID = 'C01'
 COMPARABLE = ('return', 'panic')
@@ -28,6 +28,8 @@ def compare_src_wasm(ck, prog, rec, label):
         return False
     sk, wk = src['ending']['kind'], wasm['ending']['kind']
     ck.count('src:' + sk + ('/' + src['ending']['detail'][:24] if sk == 'excluded' else ''))
+    if sk == 'excluded' and src['ending']['detail'] == 'call-order':
+        return compare_call_order(ck, prog, wasm, label)
     if sk in ('excluded', 'out-of-fuel', 'stack-overflow', 'interpreter-error', 'rejected'):
         return False
     if wk in ('stack-overflow',):
@@ -46,6 +48,48 @@ def compare_src_wasm(ck, prog, rec, label):
                             expected={'lines': src['lines'][:50], 'ending': src['ending']},
                             observed={'lines': wasm['lines'][:50], 'ending': wasm['ending']},
                             how='./check C01 --replay <this file>')
+    return True
+
+
+KNOWN_ORDER = 'C01-callee-evaluated-before-arguments'
+
+
+def src_run_with_order(prog, order):
+    import subprocess
+    _, binp, _ = build_harness('debug')
+    d = os.path.join(WORK, 'c01_order')
+    os.makedirs(d, exist_ok=True)
+    req = os.path.join(d, 'req_%d_%s.json' % (os.getpid(), order))
+    with open(req, 'w') as f:
+        json.dump({'sources': prog['sources'], 'entry': prog['entry'], 'fuel': 30000000, 'max_depth': 20000}, f)
+    p = subprocess.run([binp, 'src-run', '--json', req], stdout=subprocess.PIPE, stderr=subprocess.PIPE, timeout=120, text=True,
+                       env=dict(os.environ, SRCSEM_CALL_ORDER=order))
+    line = [l for l in p.stdout.splitlines() if l.startswith('{')]
+    return json.loads(line[-1]) if line else None
+
+
+def compare_call_order(ck, prog, wasm, label):
+    """Runs on which the order 'arguments, then callee' (spec 6.7.5 / 6.15) and the textual order 'callee / receiver, then
+    arguments' can be told apart. The compiler implements the textual order (open finding); the emitted code must follow one of
+    the two readings exactly - a third behaviour is a failure."""
+    spec = src_run_with_order(prog, 'args-first')
+    text = src_run_with_order(prog, 'callee-first')
+    inp = {'sources': prog['sources'], 'entry': prog['entry'], 'label': label}
+    comparable = lambda o: o is not None and o['ending']['kind'] in ('return', 'panic')
+    if not comparable(spec) or not comparable(text):
+        return False
+    if same_behaviour(spec, wasm) is None:
+        ck.count('call-order:as-the-specification-says')
+        return True
+    if same_behaviour(text, wasm) is None:
+        ck.count('call-order:textual')
+        ck.property_failure('the callee / receiver expression is evaluated before the arguments; the specification (6.7.5, 6.15) says after',
+                            inp, expected={'lines': spec['lines'][:40]}, observed={'lines': wasm['lines'][:40]}, klass=KNOWN_ORDER)
+        return True
+    ck.property_failure('emitted WebAssembly follows neither the specified order of evaluation (arguments, then callee) nor the textual one: '
+                        + (same_behaviour(text, wasm) or ''), inp,
+                        expected={'textual_order': text['lines'][:50], 'specified_order': spec['lines'][:50]},
+                        observed={'lines': wasm['lines'][:50], 'ending': wasm['ending']}, how='./check C01 --replay <this file>')
     return True
 
 
@@ -153,7 +197,7 @@ def run(tier, seed, replay=None):
         for i in range(n):
             r = rng.fork()
             opts = {'big': i % 7 == 0, 'nfun': 4 + i % 3, 'depth': 2 + i % 3}
-            progs.append(gen_builtin_program(r) if i % 12 == 4 else gen_layout_program(r) if i % 3 == 2 else gen_program(r, opts))
+            progs.append(gen_builtin_program(r) if i % 12 == 4 else gen_order_program(r) if i % 12 == 7 else gen_layout_program(r) if i % 3 == 2 else gen_program(r, opts))
     ck.rule = ('generated well-typed programs (recursive/generic enums, structs, interfaces with bounded generics, closures, tuples, '
                'nested and or-patterns, tail/non-tail recursion, Str/Vec/Process builtins) with inputs fed through Str.toInt; '
                'distinct = distinct program text; non-trivial = accepted, compiled and compared (run not excluded)')
@@ -162,6 +206,9 @@ def run(tier, seed, replay=None):
         # loop lowering (lir_lowering While): Gallina model + simulation theorem, tied to every real loop
         from checks import c01_loop
         c01_loop.loop(ck, tier, seed)
+        # pattern lowering (hir_lowering lower_matching_pattern / match / if-let / let): Gallina model + theorem, tied to the real HIR
+        from checks import c01_pat
+        c01_pat.pat(ck, tier, seed)
     if ck.corr_fail and not replay:
         # the model no longer describes what the compiler does: search for a program on which the difference is observable
         # (every type of the generator's catalogue up to two generic levels, applied to every constructor path)
